@@ -431,7 +431,77 @@ def eval_libpass(case):
     return out
 
 
-EVALS = {"generated": eval_generated, "alternate": eval_alternate, "special": eval_special, "libpass": eval_libpass}
+# ---------------------------------------------------------------------------
+# synthetic records: integer settings swept across the digit boundaries of their text encodings
+# (no digest is computed: the seed's checksum is kept, only parse/render symmetry is examined)
+# ---------------------------------------------------------------------------
+INT_BOUNDARIES = sorted({0, 1, 2, 7, 8, 9, 10, 15, 16, 31, 32, 63, 64, 65, 99, 100, 255, 256, 999, 1000, 4095, 4096, 4097,
+                         5000, 9999, 10000, 65535, 65536, 99999, 100000, 262143, 262144, 999999, 1000000,
+                         (1 << 24) - 1, 1 << 24, (1 << 24) + 5, 99999999, (1 << 30) - 1, (1 << 31) - 1, (1 << 32) - 1,
+                         999999999, 266240})
+
+
+def int_attrs(name):
+    H = HS.handler(name)
+    out = []
+    sk = getattr(H, "setting_kwds", ())
+    if "rounds" in sk:
+        mn, mx = H.min_rounds, H.max_rounds
+        out.append(("rounds", [v for v in INT_BOUNDARIES if mn <= v <= (mx if mx is not None else v)]))
+    if name == "scrypt":
+        vals = [v for v in INT_BOUNDARIES if 1 <= v < (1 << 30)]
+        out.append(("block_size", vals))
+        out.append(("parallelism", vals))
+    if name == "cisco_type7":
+        out.append(("salt", list(range(0, 53))))
+    return out
+
+
+def eval_synthetic(case):
+    name, settings, attr, v = case["hasher"], dict(case["settings"] or {}), case["attr"], case["value"]
+    H = HS.handler(name)
+    key = f"C07|{name}|synthetic:{attr}:"
+    try:
+        Hc = H.using(**settings) if settings else H
+        h = Hc.hash("pw", **(case.get("ctx") or {}))
+        rec = H.from_string(h)
+    except Exception:  # noqa: BLE001
+        return []
+    if name == "scrypt":
+        # keep r*p within the format's limit while one of them is swept
+        other = "parallelism" if attr == "block_size" else "block_size"
+        if attr in ("block_size", "parallelism"):
+            setattr(rec, other, 1)
+    try:
+        setattr(rec, attr, v)
+        s = rec.to_string()
+    except Exception:  # noqa: BLE001
+        return []  # the record refuses the value: nothing rendered, nothing to round-trip
+    out = []
+    try:
+        if not H.identify(s):
+            return []
+        rec2 = H.from_string(s)
+    except ValueError:
+        return []  # rendered but not accepted back: no claim about unaccepted strings
+    except Exception as e:  # noqa: BLE001
+        return [(key + f"raises:{type(e).__name__}", f"from_string({s!r}) raised {e!r}")]
+    got = getattr(rec2, attr, None)
+    if got != v:
+        out.append((key + "value", f"{attr}={v} rendered as {s!r} parses back as {attr}={got!r}"))
+    try:
+        s2 = rec2.to_string()
+        if s2 != s:
+            out.append((key + "roundtrip", f"from_string({s!r}).to_string() = {s2!r}"))
+    except Exception as e:  # noqa: BLE001
+        out.append((key + f"to_string_raises:{type(e).__name__}", f"raised {e!r}"))
+    for a in ("salt", "checksum", "rounds", "block_size", "parallelism", "ident"):
+        if a != attr and hasattr(rec, a) and getattr(rec2, a, None) != getattr(rec, a):
+            out.append((key + f"other:{a}", f"sweeping {attr}={v} changed parsed {a}: {getattr(rec, a)!r} -> {getattr(rec2, a, None)!r} ({s!r})"))
+    return out
+
+
+EVALS = {"synthetic": eval_synthetic, "generated": eval_generated, "alternate": eval_alternate, "special": eval_special, "libpass": eval_libpass}
 
 
 def replay(case):
@@ -475,6 +545,18 @@ def run(ctx):
                     cases.append({"part": "generated", "hasher": name, "settings": settings, "si": si, "pi": pi,
                                   "password": p, "form": form, "ctx": ctxkw})
             cases.append({"part": "alternate", "hasher": name, "settings": settings, "si": si, "password": "pw", "ctx": ctxkw})
+    for name in HS.usable_names():
+        if is_wrapper(name) or not hasattr(HS.handler(name), "from_string"):
+            continue
+        seeds = {}
+        for st in HS.settings_grid(name, True, ctx.seed):
+            sig = tuple(sorted((k, str(v)) for k, v in st.items() if k in ("ident", "variant", "version")))
+            seeds.setdefault(sig, st)
+        for st in list(seeds.values())[:6]:
+            for attr, vals in int_attrs(name):
+                for v in vals:
+                    cases.append({"part": "synthetic", "hasher": name, "settings": st, "attr": attr, "value": v,
+                                  "ctx": HS.ctx_grid(name)[0], "label": f"{attr}={v}", "si": str(st.get("ident"))})
     for name, label, h, p, st in special_strings():
         cases.append({"part": "special", "hasher": name, "label": label, "hash": h, "password": p, "settings": st})
     for kind, label, s in libpass_strings(ctx.quick, ctx.seed):
